@@ -6,7 +6,7 @@ CONSTANTS
   MaxVersions = 6
   MaxOps = 4
   Stable = TRUE
-  OpKinds = {"append","delete","update","upsert","compact","overwrite","restore","checkout","index"}
+  OpKinds = {"append","delete","update","upsert","compact","overwrite","restore","checkout","index","colupdate"}
   MaxBatch = 1
   Deviations = {}
 VIEW view
